@@ -141,6 +141,9 @@ pub struct Dialect {
     pub garbage: bool,
     /// use distinct old/new prefixes (a/ vs b/) or the same (x/ vs x/)
     pub same_prefix: bool,
+    /// other spellings of the same path: 1 = a doubled slash, 2 = an interior "/./", 3 = a leading "./"
+    /// (in place of the first component to strip, or in front of the name at -p0)
+    pub spelling: u8,
 }
 
 pub fn gen_dialect(ch: &mut Chooser, allow_git: bool) -> Dialect {
@@ -165,6 +168,7 @@ pub fn gen_dialect(ch: &mut Chooser, allow_git: bool) -> Dialect {
         bare_empty_ctx: ch.chance(1, 5),
         garbage: ch.chance(1, 3),
         same_prefix: ch.chance(1, 4),
+        spelling: if header != HeaderKind::Git && ch.chance(1, 6) { 1 + ch.below(3) as u8 } else { 0 },
     }
 }
 
@@ -187,7 +191,15 @@ pub fn prefixes(d: &Dialect) -> (String, String) {
 }
 
 pub fn render_name(d: &Dialect, prefix: &str, path: &str, force_quote: bool) -> Vec<u8> {
-    let full = format!("{}{}", prefix, path);
+    let mut full = format!("{}{}", prefix, path);
+    match d.spelling {
+        1 => full = full.replacen('/', "//", 1),
+        2 => full = full.replacen('/', "/./", 1),
+        3 => {
+            full = if d.strip == 0 { format!("./{}", full) } else { format!("./{}", &full[full.find('/').map_or(0, |i| i + 1)..]) };
+        }
+        _ => {}
+    }
     let must = needs_quote(full.as_bytes());
     match d.quote {
         Quote::None => {
